@@ -225,7 +225,7 @@ def schedules(ctx):
                             if verdict[0] == 'ok':
                                 ctx.holds('C13.S1', "weekly dates = every 7 days from the first <weekday> on or after the start (%s)" % verdict[1], fn.site())
                             else:
-                                ctx.violation('C13.S1', "weekly dates = pd.date_range(start, end, freq='W-<weekday>') over the unmodified range", fn.site(), verdict[1],
+                                ctx.violation('C13.S1', "weekly dates = pd.date_range(start, end, freq='W-<weekday>') over the unmodified range", fn.site(), 'READ: ' + verdict[1],
                                               key='C13.S1|weekly|range')
                             continue
                     if not ok and dates[0] == 'call' and dates[1] == ('ext', 'pandas.date_range') and a1 == en_ and a0 is not None and a0 != st_ \
